@@ -4,7 +4,7 @@
    Groups: the reps of one static type (a sequence).  TLC visits
      ("group", g)                 prints the group: its static type, whether it is comparable / hashable, its reps;
      ("pair", g, i)               prints for rep i of group g the predicted == and order against every rep j of the group;
-                                  EqLaws / OrderLaws are checked for every (i, j, k) of the group;
+                                  the equivalence and total-order laws are checked for every (i, j, k) of the group;
      ("key", p)                   for hashable rep p (of any group): the predicted outcome of inserting it and every
                                   hashable rep q into an empty dictionary (KeyLaws checked for every q);
      ("hist", pool, k1, k2, k3)   a dictionary history over a pool of keys: insert k1 -> 1; insert k2 -> 2; remove k3;
@@ -13,6 +13,10 @@
 EXTENDS EqHash, Json
 CONSTANTS Tier
 VARIABLES st
+
+\* the facts about the string alphabet, printed once for the driver's validation against the Unicode libraries
+ASSUME PrintT(ToJson([alphabet |-> [x \in AllSyms |-> [cp |-> CP(x), class |-> Class(x), ccc |-> CCC(x), decomp |-> SymStr(Decomp(x)),
+                                                       lower |-> Lower(x), hex |-> HexVal(x)]]]))
 
 Sy(str) == [i \in 1..Len(str) |-> SubSeq(str, i, i)]            \* "eM" -> <<"e", "M">>
 
@@ -152,9 +156,10 @@ Judge == CASE st[1] = "group" -> PrintT(ToJson(GroupRow(st[2])))
 \* ------------------------------------------------------------------ laws of the model on the universe
 LawsHold ==
   CASE st[1] = "group" -> LET R == Groups[st[2]] IN \A i \in 1..Len(R) : WellFormed(R[i]) /\ R[i].ty = R[1].ty /\ R[i].k \in {R[1].k, "Nil", "Some"}
-    [] st[1] = "pair"  -> LET R == Groups[st[2]]  a == R[st[3]] IN
-                          \A j \in 1..Len(R) : \A k \in 1..Len(R) :
-                             EqLaws(a, R[j], R[k]) /\ (ComparableRep(a) => OrderLaws(a, R[j], R[k]))
+    [] st[1] = "pair"  -> LET R == Groups[st[2]]  a == R[st[3]]  cmp == ComparableRep(a) IN
+                          \A j \in 1..Len(R) :
+                             /\ EqLaws(a, R[j]) /\ (cmp => OrderLaws(a, R[j]))
+                             /\ \A k \in 1..Len(R) : EqTransitive(a, R[j], R[k]) /\ (cmp => OrderTransitive(a, R[j], R[k]))
     [] st[1] = "key"   -> \A q \in 1..Len(HK) : KeyLaws(HKRep(st[2]), HKRep(q))
     [] st[1] = "hist"  -> LET P == Pools[st[2]]
                               r1 == Insert(<< >>, P[st[3]], 1)  r2 == Insert(r1.d, P[st[4]], 2)  r3 == Remove(r2.d, P[st[5]]) IN
